@@ -34,7 +34,10 @@ CLAIMED = {
                 "body of seeded subsets of messages (deferred parsing on or off), in-flight body corruption (truncate, "
                 "extend, count/length byte rewrite, non-canonical re-zero-coding) and hostile text fields. Byte identity "
                 "is checked on the wire and at every inspection point (serialize(message) == datagram as received, also "
-                "after a failed parse). The input space itself is only sampled.",
+                "after a failed parse). The input space itself is only sampled."
+                " Also: an addon that takes messages, holds the unparsed copy across other traffic and re-sends it; "
+                "over-limit zero-code runs appended in flight; encodes that fail half-way on the shared encoder / "
+                "circuit.send of an unencodable message between other traffic.",
         "design_ref": "DESIGN.md §4 C02",
         "note": "Trusted: the stub's reference zero-coder (decides canonicity) and header parser. Known finding: F32 signalling "
                 "NaNs produced by byte damage are quieted on re-encode (known_findings.json).",
@@ -46,7 +49,9 @@ CLAIMED = {
                 "half-links and the virtual clock driving the real resend task. Black-box oracle at the endpoints: ack "
                 "conservation and truthfulness per handled datagram, no ack for proxy-made IDs, exactly one ack back for a "
                 "dropped reliable packet, resend cadence / budget / stop-after-ack, completion future flips exactly in "
-                "the event that processed the ack or fails on budget exhaustion.",
+                "the event that processed the ack or fails on budget exhaustion."
+                " Process stalls (blocked for 0.5-12 resend intervals) are injected: the cadence's lower bound always "
+                "holds, its upper bound is extended by the stalled time.",
         "design_ref": "DESIGN.md §4 C05",
         "note": "Trusted: stub endpoints acknowledge only what they received; cadence judged with one-tick tolerance; "
                 "StartPingCheck rewriting not judged; tracker window at production size.",
@@ -58,7 +63,11 @@ CLAIMED = {
                 "ownership model computed from the addons' own action log decides claimed-or-not; the wire must carry "
                 "the original at most once and exactly once iff unclaimed, one ack per dropped reliable original, one "
                 "datagram per legal copy; illegal ops must raise RuntimeError; dispatch order, exception isolation and "
-                "the proxy's bookkeeping (logging once, main region, session close) are checked per message.",
+                "the proxy's bookkeeping (logging once, main region, session close) are checked per message. Object hooks "
+                "(handle_object_updated / killed) on tagged ObjectUpdate / KillObject traffic, permanent session- and "
+                "region-level subscribers (observing, raising, with a raising predicate, subscribing from inside their "
+                "handler), abnormal exits of subscribe_async blocks and cancelled waiters are part of the alphabet: every "
+                "addon's object hook and every still-waiting subscriber is asked exactly once whatever the others did.",
         "design_ref": "DESIGN.md §4 C07",
         "note": "Trusted: the intended first-truthy short-circuit semantics as read from AddonManager; explicit drop after "
                 "take treated as legal.",
@@ -71,10 +80,13 @@ CLAIMED = {
                 "(session-level and region-level, named and wildcard, plus the StartPingCheck responder) sees a reliable "
                 "packet once and an unreliable one per delivery; send futures flip exactly in the event that processed "
                 "their ack, fail with TimeoutError after exactly the transmission budget; first-transmission IDs strictly "
-                "increase and retransmissions reuse their ID.",
+                "increase and retransmissions reuse their ID. The circuit may be torn down and re-opened mid-run "
+                "(region.disconnect, UseCircuitCode again): nothing of its previous life may be retransmitted.",
         "design_ref": "DESIGN.md §4 C19",
         "note": "Trusted: stub simulator framing; login/Seed/EQ HTTP bypassed (session built from login data as login() "
-                "does). Dedupe window (1000 IDs) never exceeded.",
+                "does). A retransmission is only judged while fewer than 1000 newer reliable IDs lie in between (bursts of "
+                "900-1500 packets fill the window on purpose); sends pending when the circuit is re-opened carry no "
+                "further obligation.",
     },
     "C20": {
         "text": "Transfer clause only. Xfer (turbo on/off) and Transfer downloads served by a stub simulator in "
@@ -99,7 +111,9 @@ CLAIMED = {
                 "parent cycle) evaluated on the delivered stream; broken runs stop being judged and are counted.",
         "design_ref": "DESIGN.md §4 C14",
         "note": "Trusted: the reference scene-graph model (~120 lines); object message bodies are built with the repo's own "
-                "serializer (as its tests do). Avatars never generated as children; child order not judged.",
+                "serializer (as its tests do). Seated avatars are modelled as the code and the reference viewer treat "
+                "them (exempt from cascading kills); child order not judged. Failing observers (addon object hooks, "
+                "object-event subscribers) run alongside in 3 of 5 plans.",
     },
     "C15": {
         "text": "Both OS processes of the HTTP side (real SLMITMAddon hooks + callback pump, real MITMProxyEventManager.run) "
@@ -110,7 +124,8 @@ CLAIMED = {
                 "resume, double-resume or raise. Oracle over the recorded queue history: exactly one callback per event "
                 "(from the pump call that handled it unless taken, else exactly when the addon resumes, never if it never "
                 "does), exactly one mitm-side resume per callback, prompt hand-back, flows complete, routing metadata / "
-                "flags / rewritten URL / injected response intact across both crossings.",
+                "flags / rewritten URL / injected response intact across both crossings. A session may be closed and "
+                "garbage-collected while its flows are parked with an addon's worker: release must still hand back.",
         "design_ref": "DESIGN.md §4 C15",
         "note": "Trusted: the stub of mitmproxy's protocol core (hook order only). What an addon injects/rewrites on wrapper-cap "
                 "or repeated EventQueueGet flows is not judged (the event manager itself re-points those after the hooks).",
@@ -122,7 +137,8 @@ CLAIMED = {
                 "request (attribution read from the cap metadata that crosses the process boundary) and by name, across "
                 "1-2 sessions x 1-3 regions with queue latency. A reference grant model is replayed over the main "
                 "process's own order of work; every lookup, Seed upstream body, Seed viewer response (wrapper URLs, "
-                "proxy-only URLs), by-name read, temporary consumption and proxy-cap idempotence is checked against it.",
+                "proxy-only URLs), by-name read, temporary consumption and proxy-cap idempotence is checked against it. "
+                "Temp-heavy runs keep several one-shot caps of one kind outstanding in one region.",
         "design_ref": "DESIGN.md §4 C16",
         "note": "Trusted: the reference grant model. A URL extending several granted URLs may resolve to any of them; plain "
                 "asset caps resolve to name+URL only.",
@@ -135,7 +151,9 @@ CLAIMED = {
                 "inject_message) and region teardown at seeded instants; queue latency. A model replayed over the main "
                 "process's order of work predicts the exact body of every poll response (filtering, injection merge, "
                 "undef-on-empty, replay from cache without contacting the origin); the viewer-side concatenation and "
-                "the session's region list (one entry per announced address) are checked.",
+                "the session's region list (one entry per announced address) are checked. Addons may inject a replacement "
+                "from inside handle_eq_event (accepted in this or the next events-carrying response); a poll the proxy "
+                "answers by itself without a previous events-carrying response for that ack is a violation.",
         "design_ref": "DESIGN.md §4 C17",
         "note": "Trusted: the reference EQ model. Viewer only repeats an ack after a lost response; malformed polls are "
                 "C15's alphabet; injections pending at teardown may vanish.",
@@ -148,7 +166,8 @@ CLAIMED = {
                 "re-filtering after entries were frozen and after their session is gone. An independent evaluator over "
                 "snapshots taken at log time plus a model of the retention rule decide: match(short_circuit on/off) agree "
                 "and equal the evaluator without raising; list(logger) == retained matching entries in arrival order; "
-                "export->import and freeze->thaw preserve the message.",
+                "export->import and freeze->thaw preserve the message. Filters on Meta.CurrentSelectedLocal change truth "
+                "when the operator selects another object; the same filter text may be applied again.",
         "design_ref": "DESIGN.md §4 C18",
         "note": "Trusted: the independent evaluator's reading of when a comparison applies (stated in the evidence "
                 "assumptions). Only the generated grammar subset is exercised.",
